@@ -430,7 +430,7 @@ impl Check for VaultCheck {
             let snapshot = m.clone();
             let exp = m.apply(s);
             let got = res.is_some();
-            st.hit(if got { "tx.ok" } else { "tx.refused" });
+            st.tx(kind, got);
             let is_vault_op = matches!(s, Step::Deposit { .. } | Step::Mint { .. } | Step::Withdraw { .. } | Step::Redeem { .. });
             match (&exp, got) {
                 (Exp::Fail, true) => return Err(violation("refine.must_fail", kind, i, format!("{s:?} succeeded with {res:?}; model before: A={a0} S={s0} off={}", cfg.offset))),
